@@ -10,9 +10,9 @@ Inductive case :=
 Definition fo_of (fos : list (string * list string)) : string → list string :=
   let m : gmap string (list string) := list_to_map fos in λ n, default [] (m !! n).
 
-(* the domain of the property: lint-clean, blackbox-free, no x constant *)
+(* the domain of the property: lint-clean, blackbox-free (no registry entry and no blackbox pin node), no x constant *)
 Definition valid (C : Circuit) : bool :=
-  lint_cleanb C && bool_decide (c_bbs C = ∅) && bool_decide (of_type (c_g C) (is_ty CX) = ∅).
+  lint_cleanb C && bool_decide (c_bbs C = ∅) && bool_decide (of_type (c_g C) (λ t, is_ty CX t || is_ty BbIn t || is_ty BbOut t) = ∅).
 
 (* model = implementation (result graph, name, registry and mapping; or the exception class), and on the property's
    domain the returned graph has the gadget structure for which the semantic theorem is proved *)
@@ -33,17 +33,17 @@ Definition topo (c : circuit) : list string := merge_sort (rank_le (rank_table c
 Definition evalm (c : circuit) (order : list string) (a : val) : val :=
   let m := foldl (λ (m : gmap string bool) n,
       match c !! n with None => m | Some i =>
-        let v := λ x, default (a x) (m !! x) in
+        let v := λ x, match m !! x with Some b => b | None => a x end in
         <[n := if is_free i then a n else match n_ty i with C0 => false | C1 => true | t => gate_val t v (n_fi i) end]> m end) ∅ order in
-  λ x, default (a x) (m !! x).
+  λ x, match m !! x with Some b => b | None => a x end.
 Definition kevalm (c : circuit) (order : list string) (a : kval) : kval :=
   let m := foldl (λ (m : gmap string tern) n,
       match c !! n with None => m | Some i =>
-        let k := λ x, default (a x) (m !! x) in
+        let k := λ x, match m !! x with Some b => b | None => a x end in
         <[n := match n_ty i with Input | BbOut => a n | C0 => T0 | C1 => T1 | CX => TX
                | t => kgate t (k <$> elements (n_fi i)) end]> m end) ∅ order in
-  λ x, default (a x) (m !! x).
-Definition lval (ones : list string) : val := λ n, bool_decide (n ∈ ones).
+  λ x, match m !! x with Some b => b | None => a x end.
+Definition lval (ones : list string) : val := let s : gset string := list_to_set ones in λ n, bool_decide (n ∈ s).
 
 (* the property, judged on what the implementation returned: for every 0/1/X pattern of the inputs and both binary
    values under every X, simulation of the returned circuit gives mapping[n] = 1 exactly where Kleene evaluation of c
